@@ -1197,6 +1197,36 @@ func checkC14(c *Check, p *Program) {
 				}
 			}
 		}
+		if !okL {
+			// a hand-written decoder: interpreted - on every successful path Count is octets 2 and 3, big endian
+			nS := 0
+			okI := true
+			for _, d := range runDecoder(p, un) {
+				tup, isT := d.ret.(avTuple)
+				if !isT || len(tup) != 2 {
+					continue
+				}
+				if o, isO := tup[1].(avOpaque); !isO || o.desc != "nil" {
+					continue
+				}
+				nS++
+				v, has := d.mem["out:r.Count"].(avInt)
+				if len(d.notes) > 0 || !has || len(v.bv) != 16 {
+					okI = false
+					continue
+				}
+				for j, b := range v.bv {
+					wantSrc, wantIdx := "data[3]", j
+					if j >= 8 {
+						wantSrc, wantIdx = "data[2]", j-8
+					}
+					if b.K != bsrc || b.Src != wantSrc || b.Idx != wantIdx {
+						okI = false
+					}
+				}
+			}
+			okL = okI && nS >= 1
+		}
 		c.Decide(okL, "C14.Q4", FuncName(un)+" Count is the two octets behind length and status", p.Pos(un.Pos()), "third item, 16 bits, at offset 2, decoded into Count", "the number of lost messages is not decoded from octets 2..3 of the indication: the client resends another number of messages than the router lost")
 	} else {
 		c.Fail("C14.Q4", "knxnet.RoutingLost.Unpack", "", "not found")
